@@ -148,17 +148,18 @@ class H(S.Hooks):
 
 XCFG = {
     "weights": {"eval": 7, "reeval": 2, "set": 1, "clearat": 0.5, "clear": 0.3, "setref": 3, "delref": 0.6,
-                "setformula": 1.5, "setcached": 0.5},
+                "setformula": 1.5, "setcached": 0.5, "delcell": 1.6, "newcell": 1.6},
     "compare": ["values", "graph", "refgraph"],
     "space_p": 0.4, "no_try_p": 0.6, "maxdepths": [None], "raise_p": 0.03, "none_p": 0.02, "catch_all_p": 0.1,
-    "min_ops": 10, "max_ops": 22, "min_cells": 3, "max_cells": 6,
+    "min_ops": 10, "max_ops": 24, "min_cells": 3, "max_cells": 6, "absent_p": 0.15,
     "rule": "value layer: random programs (3-6 cells, cached and uncached, in two spaces; references read by name and "
-            "through attribute paths from either space) with histories of 10-22 evaluations, value edits, reference "
-            "edits (change / delete / create) and formula / cache-flag edits; non-trivial = an evaluation after an "
+            "through attribute paths from either space; cells called by name and through attribute paths) with "
+            "histories of 10-24 evaluations, value edits, reference edits (change / delete / create), formula / "
+            "cache-flag edits and cells deleted / created in either space; non-trivial = an evaluation after an "
             "edit returned a value different from the one the same query returned before",
 }
 
-X_EDITS = ("set", "clearat", "clearall", "setref", "delref", "setformula", "setcached")
+X_EDITS = ("set", "clearat", "clearall", "setref", "delref", "setformula", "setcached", "delcell", "newcell")
 
 
 def _short(res):
@@ -170,6 +171,7 @@ def _has_try(case, upto):
     from ..expr import subexprs, parse_sexp
     bodies = [c["body"] for c in case["cells"]]
     bodies += [parse_sexp(" ".join(op[2:])) for op in case["ops"][:upto] if op[0] == "setformula"]
+    bodies += [parse_sexp(" ".join(op[5:])) for op in case["ops"][:upto] if op[0] == "newcell"]
     return any(e[0] == "try" for b in bodies for e in subexprs(b))
 
 
@@ -241,7 +243,59 @@ def scenario_cases(ctx):
                                       "label": "readers-of-one-reference/%s/%s/%s" % (hit, edit, "uncached" if via_uncached else "cached")})
     if ctx.tier != "thorough":
         cases = ctx.rng("scenarios").sample(cases, 36)
-    return cases + input_then_redefined_cases()      # 12 small cases
+    cells_cases = cell_scenarios()
+    if ctx.tier != "thorough":
+        cells_cases = ctx.rng("scenarios-cells").sample(cells_cases, 20)
+    return cases + cells_cases + input_then_redefined_cases()      # 12 small cases
+
+
+def cell_scenarios():
+    """Scenario family: several callers of ONE cells `c0` (by name from its own space - cached, and through an
+    uncached cells -, through an attribute path from the other space), cells of its space that do not depend on it
+    (one with an assigned value), a cells of the other space that does not depend on it; everything evaluated;
+    `c0` is deleted / deleted and created again with another formula / (absent at first) created; everything
+    evaluated again.  The held values (with input marks), the trace graph and the reference graph are compared with
+    the model after every step: what a deletion / creation clears is the closure of `c0`'s nodes AND every computed
+    value of its space (namespace notification), nothing else."""
+    cases = []
+    for sp in (0, 1):                          # the space of c0
+        for c0_cached in (True, False):
+            for with_input in (False, True):   # an assigned value on c0 itself (must go with the cells)
+                for edit in ("delete", "recreate", "create"):
+                    for catching in (False, True):
+                        if catching and edit != "create":
+                            continue
+                        if with_input and (not c0_cached or edit == "create"):
+                            continue
+                        call0 = ("call", 0, [])
+                        cells = [
+                            {"id": 0, "nparams": 0, "cached": c0_cached, "allow_none": False, "space": sp,
+                             "body": ("add", ("lit", 10), ("ra", 0)), "absent": edit == "create"},
+                            {"id": 1, "nparams": 0, "cached": True, "allow_none": False, "space": sp,
+                             "body": ("add", ("try", call0, "k4", ("lit", -1)) if catching else call0, ("lit", 1))},
+                            {"id": 2, "nparams": 0, "cached": True, "allow_none": False, "space": 1 - sp,
+                             "body": ("add", ("try", call0, "k5", ("lit", -2)) if catching else call0, ("lit", 2))},
+                            {"id": 3, "nparams": 0, "cached": False, "allow_none": False, "space": sp,
+                             "body": ("add", call0, ("lit", 3))},
+                            {"id": 4, "nparams": 0, "cached": True, "allow_none": False, "space": 1 - sp,
+                             "body": ("add", ("call", 3, []), ("lit", 4))},
+                            {"id": 5, "nparams": 1, "cached": True, "allow_none": False, "space": sp,
+                             "body": ("add", ("p", 0), ("lit", 5))},
+                            {"id": 6, "nparams": 0, "cached": True, "allow_none": False, "space": 1 - sp,
+                             "body": ("lit", 6)},
+                        ]
+                        ev = [["eval", "1"], ["eval", "2"], ["eval", "4"], ["eval", "5", "2"], ["eval", "6"],
+                              ["eval", "0"], ["eval", "3"]]
+                        pre = [["set", "5", "1", "=", "77"]] + ([["set", "0", "=", "50"]] if with_input else [])
+                        new = ["newcell", "0", str(int(c0_cached)), "0", "0", "(add (lit 20) (ra 0))"]
+                        e = {"delete": [["delcell", "0"]], "recreate": [["delcell", "0"], ["eval", "1"], new],
+                             "create": [new]}[edit]
+                        cases.append({"cells": cells, "refs": {0: 1, 1: 2, 2: 3, 3: 4}, "n_rn": 2, "maxdepth": None,
+                                      "ops": pre + ev + e + ev + [["delcell", "0"]] + ev,
+                                      "label": "callers-of-one-cells/%s/%s/%s%s%s" % (
+                                          edit, "space%d" % sp, "cached" if c0_cached else "uncached",
+                                          "/input" if with_input else "", "/catching" if catching else "")})
+    return cases
 
 
 def input_then_redefined_cases():
